@@ -1,6 +1,7 @@
 package main
 
 import (
+	"encoding/binary"
 	"bufio"
 	"bytes"
 	"fmt"
@@ -93,7 +94,14 @@ func decodeOnce(msg *protocol.Message, stream []byte) (obs decObs) {
 	}()
 	err := msg.Decode(rd)
 	if err != nil {
-		return decObs{cls: decErrClass(err), rest: rd.Len()}
+		cls := decErrClass(err)
+		// a decompressor reports a truncated (or empty) compressed payload as io.ErrUnexpectedEOF (io.EOF) too: when the whole frame was
+		// read, the error is the decompressor's, not a truncated frame
+		if consumed := len(stream) - rd.Len(); (cls == "UnexpectedEOF" || cls == "EOF") && consumed >= 16 &&
+			consumed == 16+int(binary.BigEndian.Uint32(stream[12:16])) {
+			cls = "UnzipError"
+		}
+		return decObs{cls: cls, rest: rd.Len()}
 	}
 	return decObs{ok: true, msg: showMsg(msg), rest: rd.Len()}
 }
